@@ -83,13 +83,28 @@ func load(repo, verif string, groups []string) (*loaded, error) {
 		dirs = append(dirs, scanDirectives(src, virt)...)
 		return nil
 	}
-	vpFiles, _ := filepath.Glob(filepath.Join(verif, "vp", "*.go"))
-	for _, f := range vpFiles {
-		if err := addFile(f, filepath.Join(repo, "zzvp", filepath.Base(f))); err != nil {
-			return nil, err
+	patterns := []string{}
+	vpRoot := filepath.Join(verif, "vp")
+	err := filepath.Walk(vpRoot, func(path string, info os.FileInfo, err error) error {
+		if err != nil {
+			return err
 		}
+		if info.IsDir() {
+			rel, _ := filepath.Rel(vpRoot, path)
+			if has, _ := filepath.Glob(filepath.Join(path, "*.go")); len(has) > 0 {
+				patterns = append(patterns, "./"+filepath.ToSlash(filepath.Join("zzvp", rel)))
+			}
+			return nil
+		}
+		if strings.HasSuffix(path, ".go") && !strings.HasSuffix(path, "_test.go") {
+			rel, _ := filepath.Rel(vpRoot, path)
+			return addFile(path, filepath.Join(repo, "zzvp", rel))
+		}
+		return nil
+	})
+	if err != nil {
+		return nil, err
 	}
-	patterns := []string{"./zzvp"}
 	seenPat := map[string]bool{}
 	// harness groups: /verif/harness/<group>/<pkgdir with __ for />/*.go
 	for _, g := range groups {
@@ -201,6 +216,11 @@ func findHarnesses(l *loaded, re *regexp.Regexp) []harnessRef {
 
 func buildEngine(l *loaded, h harnessRef, base sym.Config) (*sym.Engine, error) {
 	cfg := base
+	cfg.SkipInit = map[string]bool{
+		// parses the embedded root with the real PEM/X.509 decoders; harnesses that
+		// need the embedded root install a model certificate instead
+		modPath + "/verify.init#1": true,
+	}
 	cfg.Merge = map[string]bool{}
 	for k, v := range base.Merge {
 		cfg.Merge[k] = v
